@@ -66,8 +66,17 @@ Theorem C13_oracle_sound : forall k,
   (forall x, In x (c_samples k) -> s_alive x = true ->
      (forall f, s_newest x = Some f -> s_t x - f < bound (c_cfg k)) /\
      (s_extrem x = false -> s_newest x <> None)) /\
-  c_left_behind k = 0 /\ (forall b, In b (c_forced_after_removal k) -> b = true).
+  c_left_behind k = 0 /\ (forall b, In b (c_forced_after_removal k) -> b = true) /\
+  (forall b, In b (c_forced_ok_has_file k) -> b = true).
 Proof. exact check_C13_spec. Qed.
+
+(* a forced refresh reports success only if the old lock file was there at both existence checks, and then
+   the replacement is in place; a lock that vanishes between the checks is a failure *)
+Theorem C13_forced_success_has_file : forall ex1 saveok ex2,
+  snd (forced ex1 saveok ex2) = true ->
+  ex1 = true /\ ex2 = true /\
+  snd (last (states saveok (true, false) (fst (forced ex1 saveok ex2))) (true, false)) = true.
+Proof. exact forced_success_has_file. Qed.
 
 Theorem C13_model_samples_fresh : forall c acq tr s,
   cfg_ok c -> 0 <= acq <= D c -> run c (init acq) tr = Some s -> stuck s = false ->
@@ -95,3 +104,4 @@ Print Assumptions C13_forced_failure_cleans_up.
 Print Assumptions C13_refresh_never_lockless.
 Print Assumptions C13_oracle_sound.
 Print Assumptions C13_model_samples_fresh.
+Print Assumptions C13_forced_success_has_file.
